@@ -31,7 +31,14 @@ RULE = ('(1) exhaustive: every interleaving of peek / next of length <= 9 (quick
         'spellings (explicit ids included), peek, next; generator kinds integer / uuid / counting(start, step); '
         'non-trivial = at least two instances with defaulted ids and one explicit argument; distinct = distinct op sequence')
 EXHAUSTIVE = {'quick': True, 'thorough': True}
-ASSUMPTIONS = ['uuid4 values are treated as an injective never-null stream (probabilistic assumption; values are never '
+ASSUMPTIONS = ['READING of "never repeats within the metamodel": ids LEFT TO THEIR DEFAULT never repeat among themselves and are '
+               'never null (theorems ids_fresh / ids_fresh_history, predicate D).  An id supplied EXPLICITLY by the caller is '
+               'not drawn from the generator and may coincide with a defaulted one (IntegerGenerator: new(A, Id=2); new(A) '
+               'gives two instances with Id 2); a defaulted id differs from every explicit id outside the values the '
+               'generator hands out (ids_fresh_vs_explicit).  D does not flag such a coincidence',
+               'type names are ASCII (str.upper on ASCII; e.g. the dotless i of a Turkish-spelt INTEGER upper-cases to I in '
+               'Python and would be accepted by the code, rejected by the model)',
+               'uuid4 values are treated as an injective never-null stream (probabilistic assumption; values are never '
                'compared, only checked non-null and pairwise distinct)',
                'user-supplied generators are represented by counting generators start + step*k with start, step > 0 '
                '(theorem ids_fresh quantifies over every injective never-null stream)',
